@@ -459,7 +459,15 @@ def run_rp66v1(ctx, p, audit):
                 if sum(len(lf.frame_types) for lf in model.logical_files) >= 11:
                     break
         else:
-            lrs, model = dlis_convertible.convertible_file(rng, max_frames=rng.choice([6, 20, 45]), name_pool=pool)
+            # a tenth of the non-first channels have a degenerate dimension list: one value per frame at rank 2 ([1, 1]), a column
+            # ([3, 1]), rank 3 with unit extents - valid RP66V1, and "one value" is then not "rank 1"
+            from tdv.gen import logpass as _LPG
+            keep = (_LPG.BIG_DIMS_P, _LPG.BIG_DIMS)
+            _LPG.BIG_DIMS_P, _LPG.BIG_DIMS = 0.1, ((1, 1), (1, 1), (3, 1), (1, 4), (1, 1, 1), (1, 7, 1), (2, 1, 2))
+            try:
+                lrs, model = dlis_convertible.convertible_file(rng, max_frames=rng.choice([6, 20, 45]), name_pool=pool)
+            finally:
+                _LPG.BIG_DIMS_P, _LPG.BIG_DIMS = keep
         data, phys = dlis.write_file_safe(rng, lrs)
         src = os.path.join(tmp, 's%d.dlis' % si)
         with open(src, 'wb') as f:
